@@ -356,10 +356,17 @@ Proof.
     { rewrite H2. destruct (negb _); [rewrite tsv_process_body_ex|]; apply tsv_tx_upd. }
     destruct rc; try assumption. rewrite tsv_receiver_clear. exact H3. }
   destruct first as [rc c1]. cbn [snd] in H0. destruct rc; try discriminate.
-  destruct (negb false && _)%bool; [discriminate|]. destruct (negb false && _)%bool; [discriminate|].
-  pose proof (tsv_tx_finalize cb g i c1) as F. destruct (tx_finalize cb g i c1) as [rc2 c2]. cbn [snd] in F.
-  destruct rc2; try discriminate. intros H. injection H as <-.
-  assert (V : ts_v c2 = ts_v c) by congruence. apply tsv_w in V. destruct V as [V _]. split; [exact V|reflexivity].
+  cbv zeta.
+  assert (W : forall ret cx, ts_v cx = ts_v c1 ->
+            match tx_finalize cb g i cx with
+            | (ST_OK, c2) => (ret, c2 <| c_out_tx := None |> <| c_out_state := RES_IDLE |>)
+            | r => r end = (ST_OK, c') -> ts_w c' = ts_w c /\ c_out_state c' = RES_IDLE).
+  { intros ret cx Vx.
+    pose proof (tsv_tx_finalize cb g i cx) as F. destruct (tx_finalize cb g i cx) as [rc2 c2]. cbn [snd] in F.
+    destruct rc2; try discriminate. intros H. injection H as _ <-.
+    assert (V : ts_v c2 = ts_v c) by congruence. apply tsv_w in V. destruct V as [V _]. split; [exact V|reflexivity]. }
+  destruct (negb false && _)%bool; [apply W; reflexivity|]. destruct (negb false && _)%bool; [apply W; reflexivity|].
+  apply W; reflexivity.
 Qed.
 
 (* htp_tx_state_response_start: OK => RES_LINE or RES_BODY_IDENTITY_STREAM_CLOSE *)
@@ -1200,19 +1207,20 @@ Proof.
     { rewrite H2. destruct (negb _); [rewrite tsv_process_body_ex|]; apply tsv_tx_upd. }
     destruct rc1; try assumption. rewrite tsv_receiver_clear. exact H3. }
   destruct first as [rc1 c1]. cbn [snd] in H0. apply tsv_proj in H0. destruct H0 as (A1 & A2 & A3 & A4 & A5 & A6 & A7).
-  intros H. split; [|split; [|exact N]].
-  - revert H. destruct rc1; try (intros H; injection H as <- <-; exact A5).
-    destruct (negb false && _)%bool; [intros H; injection H as <- <-; exact A5|].
-    destruct (negb false && _)%bool; [intros H; injection H as <- <-; cbn; exact A5|].
-    pose proof (tsv_tx_finalize cb g i c1) as F. destruct (tx_finalize cb g i c1) as [rc2 c2]. cbn [snd] in F.
+  intros H. revert H. destruct rc1; try (intros H; injection H as <- <-; split; [exact A5|split; [left; exact A6|exact N]]).
+  cbv zeta.
+  assert (W : forall ret cx, ts_v cx = ts_v c1 ->
+            match tx_finalize cb g i cx with
+            | (ST_OK, c2) => (ret, c2 <| c_out_tx := None |> <| c_out_state := RES_IDLE |>)
+            | r => r end = (rc, c') ->
+            k_buf (c_out c') = k_buf (c_out c) /\ ts_st c c' [RES_IDLE] /\ rc <> ST_DATA_BUFFER).
+  { intros ret cx Vx. apply tsv_proj in Vx. destruct Vx as (X1 & X2 & X3 & X4 & X5 & X6 & X7).
+    pose proof (tsv_tx_finalize cb g i cx) as F. destruct (tx_finalize cb g i cx) as [rc2 c2]. cbn [snd] in F.
     apply tsv_proj in F. destruct F as (F1 & F2 & F3 & F4 & F5 & F6 & F7).
-    destruct rc2; intros H; injection H as <- <-; cbn; congruence.
-  - revert H. destruct rc1; try (intros H; injection H as <- <-; left; exact A6).
-    destruct (negb false && _)%bool; [intros H; injection H as <- <-; left; exact A6|].
-    destruct (negb false && _)%bool; [intros H; injection H as <- <-; left; cbn; exact A6|].
-    pose proof (tsv_tx_finalize cb g i c1) as F. destruct (tx_finalize cb g i c1) as [rc2 c2]. cbn [snd] in F.
-    apply tsv_proj in F. destruct F as (F1 & F2 & F3 & F4 & F5 & F6 & F7).
-    destruct rc2; intros H; injection H as <- <-; try (left; congruence). right. left. reflexivity.
+    destruct rc2; intros H; injection H as _ <-; (split; [cbn; congruence|split; [|exact N]]); try (left; congruence).
+    right. left. reflexivity. }
+  destruct (negb false && _)%bool; [apply W; reflexivity|]. destruct (negb false && _)%bool; [apply W; reflexivity|].
+  apply W; reflexivity.
 Qed.
 
 Lemma ts_response_start_any i c rc c' : tx_state_response_start cb i c = (rc, c') ->
